@@ -26,13 +26,14 @@ from ..slices import Affine
 from .. import locsets, stagger
 from ..stagger import StencilError
 from . import common
+from ..model import canon as K
 
 MESH = common.MESH
 LOCS = ("centre", "xlow", "ylow", "corners")
 
 
 def T(mod, node):
-    return " ".join(strip_comments(mod.text(node)).split())
+    return mod.code(node)
 
 
 def run(rep, tier):
@@ -76,7 +77,7 @@ def r1(prog, rep, fz):
         rep.ob("R1", "integrand == fpol(psi)/(R^2*sqrt(Bp_R^2+Bp_Z^2)) [%s]" % option, d.is_zero(), fz.site(), "found %s" % v.show(200), key="integrand/" + option)
     fdef, call, trap = common.zshift_integrand_def(fz)
     args = [T(mod, a) for a in call.args]
-    rep.ob("R1", "integrand evaluated at the fine contour's (R, Z) = positions[:,0], positions[:,1]", args == ["fine_contour.positions[:, 0]", "fine_contour.positions[:, 1]"], fz.site(call), str(args), key="integrand/args")
+    rep.ob("R1", "integrand evaluated at the fine contour's (R, Z) = positions[:,0], positions[:,1]", args == [K("fine_contour.positions[:, 0]"), K("fine_contour.positions[:, 1]")], fz.site(call), str(args), key="integrand/args")
     kw = {k.arg: T(mod, k.value) for k in trap.keywords}
     xdef = None
     for s in walk_own(fz.node):
@@ -93,10 +94,10 @@ def r1(prog, rep, fz):
     rep.ob("R1", "integral re-zeroed at the fine contour's startInd", ok, fz.site(rez[0]) if rez else fz.site(), "", key="integrand/rezero")
     # interpolated to the contour's points with the same abscissa
     interp = [n for n in walk_own(fz.node) if isinstance(n, ast.Call) and _dotted(n.func) == "interp1d"]
-    ok = len(interp) == 1 and [T(mod, a) for a in interp[0].args[:2]] == [kw.get("x"), zname] and any(k.arg == "kind" and T(mod, k.value) == '"linear"' for k in interp[0].keywords)
+    ok = len(interp) == 1 and [T(mod, a) for a in interp[0].args[:2]] == [kw.get("x"), zname] and any(k.arg == "kind" and T(mod, k.value) == K('"linear"') for k in interp[0].keywords)
     rep.ob("R1", "fine-contour integral is interpolated (linear in distance) onto the contour's points", ok, fz.site(), "", key="integrand/interp")
     ev = [n for n in walk_own(fz.node) if isinstance(n, ast.Assign) and isinstance(n.value, ast.Call) and isinstance(n.value.func, ast.Name) and n.value.func.id == "zShift_interpolator"]
-    ok = len(ev) == 1 and T(mod, ev[0].value.args[0]).replace(" ", "") == "contour.get_distance(psi=self.equilibriumRegion.psi)"
+    ok = len(ev) == 1 and T(mod, ev[0].value.args[0]).replace(" ", "") == K("contour.get_distance(psi=self.equilibriumRegion.psi)")
     rep.ob("R1", "interpolant evaluated at the contour's own point distances", ok, fz.site(), "", key="integrand/at-points")
 
 
@@ -105,7 +106,7 @@ def r2_r3(prog, rep, fz):
     # placement statements
     placements = {}
     for s in walk_own(fz.node):
-        if isinstance(s, ast.If) and "i%2==0" in T(mod, s.test).replace(" ", ""):
+        if isinstance(s, ast.If) and K("i%2==0") in T(mod, s.test).replace(" ", ""):
             for arm, par in ((s.body, "even"), (s.orelse, "odd")):
                 xi = None
                 for st in arm:
@@ -119,12 +120,12 @@ def r2_r3(prog, rep, fz):
     want = {("even", "corners"): "[::2]", ("even", "xlow"): "[1::2]", ("odd", "ylow"): "[::2]", ("odd", "centre"): "[1::2]"}
     for (par, loc), sl in want.items():
         got = placements.get((par, loc))
-        ok = got is not None and got[0] == "xind,:" and got[1].endswith(sl) and got[2] == "i//2" and got[3] == "Add"
+        ok = got is not None and got[0] == K("xind,:") and got[1].endswith(sl) and got[2] == K("i//2") and got[3] == "Add"
         rep.ob("R2", "%s contours feed zShift.%s from point parity %s at x index i//2" % (par, loc, sl), ok, fz.site(), str(got), key="place/%s/%s" % (par, loc))
     rep.ob("R2", "no other placement statements", set(placements) == set(want), fz.site(), str(sorted(placements)), key="place/only")
     # R3 chain
     first = fz.node.body[0] if not isinstance(fz.node.body[0], ast.Expr) else fz.node.body[1]
-    ok = isinstance(first, ast.If) and T(mod, first.test) == "self.yGroupIndex != 0" and isinstance(first.body[0], ast.Return)
+    ok = isinstance(first, ast.If) and T(mod, first.test) == K("self.yGroupIndex != 0") and isinstance(first.body[0], ast.Return)
     rep.ob("R3", "only the first region of a y-group (yGroupIndex == 0) starts a chain", ok, fz.site(first), "", key="chain/start")
     zeros = {}
     for s in walk_own(fz.node):
@@ -153,13 +154,13 @@ def r2_r3(prog, rep, fz):
         ok = got is not None and got[0] == srcloc and isinstance(got[1], Affine) and got[1] == Affine(0, 1)
         rep.ob("R3", "hand-over: next region's zShift.%s starts from this region's %s at logical y = ny" % (loc, srcloc), ok, fz.site(), str(got), key="chain/handover/" + loc)
     src = mod.code(fz.node)
-    rep.ob("R3", "the chain stops at a missing neighbour or on return to the first region", 'if(next_regionisNone)or(next_regionisself):' in src and 'next_region=region.getNeighbour("upper")' in src, fz.site(), "", key="chain/stop")
-    rep.ob("R3", "the next region becomes the current one", "region=next_region" in src, fz.site(), "", key="chain/advance")
+    rep.ob("R3", "the chain stops at a missing neighbour or on return to the first region", K('ifnext_regionisNoneornext_regionisself:') in src and K('next_region=region.getNeighbour("upper")') in src, fz.site(), "", key="chain/stop")
+    rep.ob("R3", "the next region becomes the current one", K("region=next_region") in src, fz.site(), "", key="chain/advance")
     # ShiftAngle
     sa = {}
     guard = None
     for s in walk_own(fz.node):
-        if isinstance(s, ast.If) and T(mod, s.test) == 'self.connections["lower"] is not None':
+        if isinstance(s, ast.If) and T(mod, s.test) == K('self.connections["lower"] is not None'):
             for st in s.body:
                 if isinstance(st, ast.Assign):
                     la = stagger.loc_array(st.targets[0])
@@ -193,7 +194,7 @@ def r4_r5(prog, rep):
     ok = False
     for s in walk_own(fm.node):
         if isinstance(s, ast.Assign) and is_self_attr(s.targets[0], "ShiftTorsion"):
-            ok = T(fm.module, s.value) == 'self.DDX("#dphidy")'
+            ok = T(fm.module, s.value) == K('self.DDX("#dphidy")')
     rep.ob("R5", "ShiftTorsion == DDX(dphidy)", ok, fm.site(), "", key="shifttorsion")
     for name, axis in (("DDX", "x"), ("DDY", "y")):
         f = prog.func(MESH, "MeshRegion." + name)
